@@ -71,6 +71,12 @@ var scens = []scen{
 	{Name: "c10-three-ids-default-queue", Props: []string{"C10"}, IDs: []uint32{1, 2, 3}, Qlen: 0,
 		Writers: []wspec{{"A", 1, []int{1}}, {"A", 2, []int{maxPayload + 1}}, {"A", 3, []int{0, 2}}},
 		Readers: []rspec{{"B", 1, 0}, {"B", 2, 0}, {"B", 3, 0}}, Bound: [2]int{2, 3}},
+	{Name: "c10-three-writers-same-id", Props: []string{"C10"}, IDs: []uint32{1}, Qlen: 8,
+		Writers: []wspec{{"A", 1, []int{maxPayload + 1}}, {"A", 1, []int{1}}, {"A", 1, []int{0, maxPayload}}},
+		Readers: []rspec{{"B", 1, 0}}, Bound: [2]int{2, 3}},
+	{Name: "c10-crossing-oversized", Props: []string{"C10"}, IDs: []uint32{1, 2}, Qlen: 8,
+		Writers: []wspec{{"A", 1, []int{2*maxPayload + 3}}, {"B", 1, []int{2*maxPayload + 1}}, {"A", 2, []int{1}}},
+		Readers: []rspec{{"B", 1, 0}, {"A", 1, 0}, {"B", 2, 0}}, Bound: [2]int{2, 3}},
 	// ---- C11: fail stop ----
 	{Name: "c11-cut-any-offset", Props: []string{"C11"}, IDs: []uint32{1, 2}, Qlen: 8, Cut: true,
 		Writers: []wspec{{"A", 1, []int{maxPayload + 1}}, {"B", 2, []int{2}}},
@@ -93,6 +99,18 @@ var scens = []scen{
 	{Name: "c11-overflow-oversized", Props: []string{"C11"}, IDs: []uint32{1}, Qlen: 2,
 		Writers: []wspec{{"A", 1, []int{2*maxPayload + 1}}},
 		Readers: []rspec{{"B", 1, 1}}, Bound: [2]int{2, 3}},
+	{Name: "c11-peer-close-during-oversized", Props: []string{"C11"}, IDs: []uint32{1}, Qlen: 8,
+		Writers: []wspec{{"A", 1, []int{2*maxPayload + 3}}},
+		Readers: []rspec{{"B", 1, 0}},
+		Closers: []cspec{{"mux:B", 1}}, Bound: [2]int{2, 3}},
+	{Name: "c11-both-ends-close", Props: []string{"C11"}, IDs: []uint32{1, 2}, Qlen: 8,
+		Writers: []wspec{{"A", 1, []int{2}}, {"B", 2, []int{maxPayload + 1}}},
+		Readers: []rspec{{"B", 1, 0}, {"A", 2, 0}},
+		Closers: []cspec{{"mux:A", 1}, {"mux:B", 1}}, Bound: [2]int{2, 3}},
+	{Name: "c11-cut-with-closer", Props: []string{"C11"}, IDs: []uint32{1}, Qlen: 8, Cut: true,
+		Writers: []wspec{{"A", 1, []int{maxPayload + 1}}},
+		Readers: []rspec{{"B", 1, 0}},
+		Closers: []cspec{{"conn:A:1", 1}}, Bound: [2]int{1, 2}},
 	{Name: "c11-listener", Props: []string{"C11"}, IDs: []uint32{3}, Qlen: 8, Listener: true,
 		Closers: []cspec{{"listener:A:3", 2}}, Bound: [2]int{3, 4}},
 }
